@@ -188,3 +188,139 @@ pub fn http_round(seed: u64) -> Value {
         "http_round": true,
     })
 }
+
+/// C03 over the HTTP front end: a follower whose history replay is held up (the client does not read while a
+/// history larger than every buffer between store and socket is being sent), frames appended meanwhile through
+/// other connections, then the stream is drained. Exactly-once / order / threshold oracles over what arrived.
+pub fn http_follow_round(seed: u64) -> Value {
+    let mut rng = Rng::new(seed);
+    let dir = work_dir("e2hf");
+    let mut sess = match Session::spawn(&dir, true) {
+        Ok(s) => s,
+        Err(e) => return json!({"mode": "c03-http", "seed": seed, "violations": [], "inconclusive": format!("session: {}", e)}),
+    };
+    let sock = dir.join("sock");
+    let mut out: Vec<Value> = vec![];
+    let viol = |out: &mut Vec<Value>, sig: &str, detail: Value| {
+        if out.iter().filter(|v| v["signature"] == sig).count() < 2 {
+            out.push(json!({"props": ["C03"], "signature": sig, "detail": detail}));
+        }
+    };
+    let hist_n = [300u64, 1500, 3000][rng.below(3)];
+    let size = [200u64, 1000, 2000][rng.below(3)];
+    let sse = rng.chance(300);
+    let inconclusive = |m: String| json!({"mode": "c03-http", "seed": seed, "violations": [], "inconclusive": m});
+    let v = match sess.call_t(json!({"op": "bulk", "n": hist_n, "size": size, "tag": 3, "topic": "hist"}), Duration::from_secs(120)) {
+        Ok(v) => v,
+        Err(e) => return inconclusive(format!("bulk: {}", e)),
+    };
+    let hist: Vec<u128> = crate::model::parse_pairs(&v["ok"]).into_iter().map(|p| p.0).collect();
+    // the follower: request sent, head read, body left unread
+    let Ok(mut conn) = Conn::open(&sock) else { return inconclusive("no connection".into()) };
+    let mut req = Req::new("GET", "/?follow=true");
+    if sse {
+        req = req.header("Accept", b"text/event-stream");
+    }
+    if conn.send(&req.bytes()).is_err() {
+        return inconclusive("send failed".into());
+    }
+    let Ok((status, headers)) = conn.read_head(Duration::from_secs(20)) else { return inconclusive("no response head".into()) };
+    if status != 200 {
+        return inconclusive(format!("status {}", status));
+    }
+    std::thread::sleep(Duration::from_millis(20 + rng.below(60) as u64));
+    // appends while the replay is (for the larger histories) still held up
+    let n_live = 5 + rng.below(20);
+    let mut acked: Vec<(u128, bool)> = vec![];
+    for i in 0..n_live {
+        let eph = i % 4 == 3;
+        let target = if eph { "/live?ttl=ephemeral".to_string() } else { "/live".to_string() };
+        if let Ok(resp) = http::once(&sock, &Req::new("POST", &target).body(format!("live {}", i).as_bytes()), Duration::from_secs(30)) {
+            if let Ok(f) = serde_json::from_slice::<Frame>(&resp.body) {
+                acked.push((f.id.to_u128(), eph));
+            }
+        }
+    }
+    // the end marker is appended only once the client has seen the threshold, i.e. when the stream is in its live
+    // phase for certain: everything acknowledged before it must arrive before it
+    let mut sentinel: Option<Frame> = None;
+    let mut sentinel_tried = false;
+    let sock2 = sock.clone();
+    let r = conn.read_body(&headers, Duration::from_secs(60), |b| {
+        if !sentinel_tried {
+            if b.windows(12).any(|w| w == b"xs.threshold") {
+                sentinel_tried = true;
+                sentinel = http::once(&sock2, &Req::new("POST", "/sentinel"), Duration::from_secs(30)).ok().and_then(|r| serde_json::from_slice::<Frame>(&r.body).ok());
+            }
+            return sentinel_tried && sentinel.is_none();
+        }
+        match &sentinel {
+            Some(s) => {
+                let id = s.id.to_string();
+                b.len() >= id.len() && b[b.len().saturating_sub(4096)..].windows(id.len()).any(|w| w == id.as_bytes())
+            }
+            None => true,
+        }
+    });
+    let Ok((body, _, _)) = r else { return inconclusive("stream read failed".into()) };
+    if !sentinel_tried {
+        // no threshold within 60 s
+        let n = if sse { http::sse(&body).len() } else { http::ndjson(&body).len() };
+        sess.close();
+        rm_dir(&dir);
+        return if n as u64 >= hist_n {
+            json!({"mode": "c03-http", "seed": seed, "frames": n, "violations": [{"props": ["C03"], "signature": "http-follow/no-threshold-after-the-history", "detail": {"history": hist_n, "received": n}}], "inconclusive": null, "nontrivial": true, "http_follow_round": true})
+        } else {
+            inconclusive(format!("history not replayed within 60 s ({} of {})", n, hist_n))
+        };
+    }
+    let Some(sentinel) = sentinel else { return inconclusive("sentinel append failed".into()) };
+    let frames: Vec<Frame> = if sse {
+        http::sse(&body).into_iter().filter_map(|e| serde_json::from_value::<Frame>(e.1).ok()).collect()
+    } else {
+        http::ndjson(&body).into_iter().filter_map(|v| serde_json::from_value::<Frame>(v).ok()).collect()
+    };
+    let d = json!({"history": hist_n, "pad": size, "rendering": if sse { "sse" } else { "ndjson" }, "appended_meanwhile": acked.len(), "received": frames.len()});
+    let mut inconc = Value::Null;
+    if !frames.iter().any(|f| f.id == sentinel.id) {
+        inconc = json!("sentinel not received within 60 s");
+    } else {
+        let thresholds = frames.iter().filter(|f| f.topic == "xs.threshold").count();
+        if thresholds != 1 {
+            viol(&mut out, "http-follow/threshold-count-wrong", json!({"round": d, "thresholds": thresholds}));
+        }
+        let real: Vec<u128> = frames.iter().filter(|f| f.topic != "xs.threshold" && f.topic != "xs.pulse").map(|f| f.id.to_u128()).collect();
+        if real.windows(2).any(|w| w[1] <= w[0]) {
+            let set: BTreeSet<u128> = real.iter().copied().collect();
+            viol(&mut out, if set.len() != real.len() { "http-follow/frame-delivered-twice" } else { "http-follow/ids-not-increasing" }, json!({"round": d}));
+        }
+        let got: BTreeSet<u128> = real.iter().copied().collect();
+        let missing_hist = hist.iter().filter(|i| !got.contains(i)).count();
+        if missing_hist > 0 {
+            viol(&mut out, "http-follow/historical-frame-not-delivered", json!({"round": d, "missing": missing_hist}));
+        }
+        let missing_live: Vec<String> = acked.iter().filter(|(i, _)| !got.contains(i)).map(|(i, e)| format!("{}{}", crate::model::id_str(*i), if *e { " (ephemeral)" } else { "" })).collect();
+        if !missing_live.is_empty() {
+            viol(&mut out, "http-follow/acknowledged-frame-appended-during-replay-not-delivered", json!({"round": d, "missing": missing_live}));
+        }
+    }
+    // was the replay really still going on when the appends were made? (frames that arrived after the threshold)
+    let th_pos = frames.iter().position(|f| f.topic == "xs.threshold").unwrap_or(frames.len());
+    let after_threshold = frames[th_pos.min(frames.len())..].iter().filter(|f| acked.iter().any(|a| a.0 == f.id.to_u128())).count();
+    sess.close();
+    rm_dir(&dir);
+    json!({
+        "mode": "c03-http",
+        "seed": seed,
+        "config": d,
+        "frames": frames.len(),
+        "window_hits": acked.len(),
+        "delivered_from_window": after_threshold,
+        "class": format!("http-follow/{}x{}/{}", hist_n, size, if sse { "sse" } else { "ndjson" }),
+        "shape": format!("http-follow/hist={}/{}", hist_n, if sse { "sse" } else { "ndjson" }),
+        "violations": out,
+        "inconclusive": inconc,
+        "nontrivial": !acked.is_empty(),
+        "http_follow_round": true,
+    })
+}
